@@ -13,7 +13,8 @@ RULE = ("per generated instance (values, numbins) the exhaustive optimum of ever
         "instance is solved by complete greedy under all 16 switch masks x {maxmin,minmax,diff}, by ckk/snp/rnp (diff), by dp "
         "(2 of 5 objectives) and, for values <= 200, by ilp (1 of 5 objectives); non-trivial = n > numbins >= 2 and LPT's value "
         "differs from the optimum of that objective; distinct on (algorithm, config, sorted values, numbins); every 10th (thorough: 4th) instance is of class manysmall: "
-        "11-13 items with values <= 15, where O1 stays cheap, solved by cg (9 configurations), snp, rnp and ckk (<= 3 bins)")
+        "11-13 items with values <= 15, where O1 stays cheap, solved by cg (9 configurations), snp, rnp and ckk (<= 3 bins); 40% of each shard: certificate pairs "
+        "(snp vs complete greedy on 9-12 items, 4-5 bins, values <= 1000; a strictly better validated partition refutes the other)")
 ASSUMPTIONS = ["O1 enumerates all sorted sum-vectors (n <= 10)", "ilp disagreements are re-solved with CBC preprocessing off; agreement then = inconclusive(solver)",
                "rnp: numbins <= 5 (numbins >= 6 is KF-rnp-k6, no value returned)"]
 FLOORS = {"quick": {"distinct_nontrivial": 600, "cg.returns": 1000}, "thorough": {"distinct_nontrivial": 3000, "cg.returns": 5000}}
@@ -133,6 +134,41 @@ def run_manysmall(k, values, rng, ctx):
     ctx.counters["manysmall_instances"] += 1
 
 
+def run_certificate_pair(k, values, rng, ctx):
+    """
+    Beyond O1's size (9-12 items, 4-5 bins): sequential number partitioning and complete greedy (difference objective) on the same instance. Each result is
+    validated as a partition; a strictly better VALIDATED partition from the other algorithm is a certificate (O6) that the worse one is not optimal.
+    """
+    base = {"kind": "partition", "k": k, "values": values, "cls": "certificate_pair", "pres": "list", "pres_seed": 0}
+    got = {}
+    for alg, extra in (("snp", {}), ("cg", {"objective": ["diff", None], "cg_mask": 11})):
+        case = dict(base, alg=alg, **extra)
+        ctx.evaluated()
+        r, names, vmap = C.run_partition_case(case, ctx=ctx, timeout=1.5)     # snp has a heavy tail; slow instances are dropped quickly (inconclusive)
+        if r.timeout:
+            ctx.inconc("timeout:" + alg, case)
+            return
+        if not r.ok:
+            ctx.violation("exception" if r.exc is not None else "none_result", alg, case, C.exc_witness(r, case) if r.exc is not None else {})
+            return
+        bad = C.check_partition_result(r.value, names, vmap, k, alg)
+        if bad:
+            ctx.violation("invalid_partition:" + bad[0], alg, case, bad[1])
+            return
+        s = [sum(b) for b in C.bins_values(r.value[1], vmap)]
+        got[alg] = (max(s) - min(s), s, case)
+    best = min(v for v, _, _ in got.values())
+    for alg, (v, s, case) in got.items():
+        if v > best:
+            other = [a for a in got if a != alg][0]
+            ctx.violation("suboptimal", alg, case, {"numbins": k, "n": len(values), "objective": "diff", "got": v, "opt": best, "valid_partition": True, "sums": s,
+                                                    "certificate_from": other, "certificate_sums": got[other][1], "note": "opt = value of a validated partition returned by " + other})
+        else:
+            ctx.held(key=(alg, "pair", tuple(sorted(values)), k), nontrivial=lpt_value(values, k, "diff", None) != best, cls=f"{alg}/certificate_pair",
+                     sample={"case": case, "agreed_value": best})
+    ctx.counters["certificate_pairs"] += 1
+
+
 def run_instance(cls, k, values, rng, ctx, algs=None):
     n = len(values)
     vectors = O.sum_vectors(values, k)
@@ -168,6 +204,13 @@ def run_shard(spec, rng, ctx):
     end = C.budget(spec)
     i = 0
     try:
+        # 40% of the budget: snp vs complete greedy beyond the exhaustive oracle's size (pruning defects of snp show at >= 4 bins and >= 9-10 items)
+        pair_end = C.now() + 0.4 * float(spec.get("budget_s", 60))
+        while C.now() < pair_end:
+            k = rng.choice([4, 4, 4, 5])
+            # 10 items is the sweet spot (snp ~50 ms); the thorough tier also goes to 11-12 items
+            n = 10 if (spec.get("tier") != "thorough" or rng.random() < 0.7) else rng.randint(11, 12 if k == 4 else 11)
+            run_certificate_pair(k, [rng.randint(1, rng.choice([30, 100, 100, 100, 300])) for _ in range(n)], rng, ctx)
         while i < spec["max_instances"] and C.now() < end:
             if i % (4 if spec.get("tier") == "thorough" else 10) == 3:
                 k = rng.choice([2, 3, 3, 4])
